@@ -1,10 +1,11 @@
 #!/bin/bash
 # usage: tools/run_all.sh <quick|thorough> [seed...]   — run every registered check, print one line each
+# (CHECKS="C10 C01" in the environment restricts the run to those)
 TIER=${1:-quick}; shift
 SEEDS=${@:-1}
 cd "$(dirname "$0")/.."
 for seed in $SEEDS; do
-  for id in $(python3 -c "import json;print(' '.join(c['property_id'] for c in json.load(open('MANIFEST.json'))['checks']))"); do
+  for id in ${CHECKS:-$(python3 -c "import json;print(' '.join(c['property_id'] for c in json.load(open('MANIFEST.json'))['checks']))")}; do
     start=$(date +%s)
     out=$(VERIF_SEED=$seed ./check $id $TIER 2>/dev/null)
     rc=$?
